@@ -166,10 +166,12 @@ class _EncNS:
     @staticmethod
     def read_rle_bit_packed_hybrid(io_obj, width, length, o, itemsize=4):
         tok = io_obj.src
-        if tok.kind == "rep":
-            _fill(o, tok.page[1], length)
-        elif tok.kind == "def":
-            _fill(o, tok.page[0], length)
+        # `length` limits the input bytes the decoder may consume: a level stream may need all of its bytes (runs of
+        # few values), so anything below the stream's byte length cuts it short
+        if tok.kind == "rep" and length >= REP_LEN:
+            _fill(o, tok.page[1], len(tok.page[1]))
+        elif tok.kind == "def" and length >= DEF_LEN:
+            _fill(o, tok.page[0], len(tok.page[0]))
         elif tok.kind == "val":
             # `length` is a byte count for the value stream; the decoder stops at the output's capacity
             _fill(o, tok.page[2], len(tok.page[2]))
